@@ -19,6 +19,7 @@ REACH = {"C25": ("ReRegisterWhileClaimed", "ReRegisterRefused", "BridgeDataBothW
                  "ConnectorLeavesTargetBack"),
          "C26": ("AllGoneAfterBridge", "DisconnectMidIdentity", "TargetLeavesWhileClaimed", "BridgedSideLeaves", "DuplicateIds")}
 THIRDS = [0, 11, 22, 32]
+SPELLED = []     # state-cover histories of MC_Relay_spelling.cfg that contain a differently spelled CONNECT
 
 
 def model_check(chk, thorough):
@@ -49,6 +50,17 @@ def model_check(chk, thorough):
     # histories that run through the deviation, whatever the tree under test does with them
     r2, hists2 = vlib.dump_hists("Relay", "MC_Relay_gen_rereg.cfg", workers=vlib.NCPU, timeout=2400)
     chk.add_model("Relay as-found variant (REGISTER accepted while claimed), state cover only, <= 9 steps", r2, "no invariants: sequence generation")
+    if chk.pid == "C25":
+        # CONNECTs that spell the target differently from the registry key: refused by the code (model: AltSpelling = "refuse");
+        # looking the canonical id up while erasing the typed text keeps a claimed peer listed (deviation, C25_SingleClaim)
+        r4, hists4 = vlib.dump_hists("Relay", "MC_Relay_spelling.cfg", workers=vlib.NCPU, timeout=2400)
+        chk.add_model("Relay design=>contract with differently spelled CONNECT targets, 3 clients x 2 ids, <= 8 client steps", r4, "bounded")
+        rd = vlib.mc("Relay", "MC_Relay_dev_spelling.cfg", expect_violation="C25_SingleClaim", workers=8, timeout=1500)
+        w = last_hist(rd.out)
+        if not w:
+            raise vlib.MachineryError("no counterexample history in the output of MC_Relay_dev_spelling.cfg")
+        witnesses.append(w)
+        SPELLED[:] = [h for h in hists4 if any(a.get("alt") for a in h)]
     if thorough:
         r3 = vlib.mc("Relay", "MC_Relay_thorough.cfg", workers=vlib.NCPU, timeout=2400)
         chk.add_model("Relay design=>contract, 4 clients x 2 ids, <= 10 client steps", r3, "bounded")
@@ -88,7 +100,9 @@ class Gen:
         elif op == "reg":
             self.lines.append("send c=%d p=%s:%d" % (c, "regcr" if rng.random() < 0.15 else "reg", a["i"]))
         elif op == "con":
-            p = "%s:%d:%d" % ("concr" if rng.random() < 0.15 else "con", a["i"] if a.get("self") else 100 + c, a["i"])
+            # alt: the target's id spelled in upper / mixed case (the same peer id, not the registry's own text)
+            kind = rng.choice(["conU", "conM"]) if a.get("alt") else "concr" if rng.random() < 0.15 else "con"
+            p = "%s:%d:%d" % (kind, a["i"] if a.get("self") else 100 + c, a["i"])
             if a.get("pipe", 0) >= 1:
                 p += ",id:0:32"
                 self.third[c] = 3
@@ -148,7 +162,7 @@ def random_action(g, rng, ids=(1, 2)):
     if x < 0.22:
         return {"op": "reg", "c": c, "i": rng.choice(ids)}
     if x < 0.42:
-        return {"op": "con", "c": c, "i": rng.choice(ids), "self": rng.random() < 0.1, "pipe": rng.choice([0, 0, 1, 2, 3])}
+        return {"op": "con", "c": c, "i": rng.choice(ids), "self": rng.random() < 0.1, "pipe": rng.choice([0, 0, 1, 2, 3]), "alt": rng.random() < 0.15}
     if x < 0.60:
         return {"op": "id", "c": c, "n": rng.choice([1, 2, 3]), "plus": rng.choice([0, 0, 0, 0, 1, 1, 2])}
     if x < 0.80:
@@ -446,6 +460,9 @@ def run(chk):
         run_and_validate(chk, [hist_to_script(h, rng).done() for h in h1], "tlc-state-cover", hists=h1)
         run_and_validate(chk, [hist_to_script(h, rng).done() for h in h2], "tlc-state-cover-as-found-variant")
         run_and_validate(chk, transition_cover(hists + hists2, rng, 800 if not thorough else 12000), "tlc-transition-cover")
+        sp = sorted(SPELLED, key=len, reverse=True)
+        sp = sp[:300] + rng.sample(sp[300:], min(max(0, len(sp) - 300), 300 if not thorough else 6000))
+        run_and_validate(chk, [hist_to_script(h, rng).lines + ["send c=%d p=tok:9" % c for c in (1, 2, 3)] + ["final"] for h in sp], "tlc-state-cover-spelled-targets")
         run_and_validate(chk, random_behaviours(rng, 400 if not thorough else 8000), "random")
         run_and_validate(chk, stalled_receiver_behaviours(rng, 6 if not thorough else 40) + flow_behaviours(chk, rng, 10 if not thorough else 60), "slow-receiver")
     else:
